@@ -81,7 +81,7 @@ func VerifC02(args []string) {
 	outs := make([]outcome, len(cfgs))
 	costs := vfCosts(w, costMode)
 	for i, opts := range cfgs {
-		conf := w.config("keys", opts)
+		conf := w.config(vfRegOf(args), opts)
 		if stateless == "pq" {
 			conf.StatelessOperators = []string{"p", "q"}
 		}
